@@ -237,7 +237,7 @@ def check(case):
 
 
 def parts(tier):
-    return [Part("rows", strategy=_case(), check=check, n={"quick": 2400, "thorough": 48000})]
+    return [Part("rows", strategy=_case(), check=check, n={"quick": 2400, "thorough": 100000})]
 
 
 MANIFEST = {
